@@ -81,17 +81,24 @@ def strip_links(S):
     import copy
     S = copy.deepcopy(S)
 
+    def one(m):
+        # embedded projects are reached through MetaModules and through the effect synth of a Sampler, at any depth
+        if m is None:
+            return
+        m.pop("links", None)
+        pl = m.get("payload") or {}
+        if m["type"] == "MetaModule" and pl.get("project"):
+            rec(pl["project"])
+        elif m["type"] == "Sampler" and pl.get("effect"):
+            one(pl["effect"].get("module"))
+
     def rec(p):
         for m in p["modules"]:
-            if m is None:
-                continue
-            m.pop("links", None)
-            if m["type"] == "MetaModule":
-                rec(m["payload"]["project"])
+            one(m)
     if S["kind"] == "project":
         rec(S)
-    elif S["module"]["type"] == "MetaModule":
-        rec(S["module"]["payload"]["project"])
+    else:
+        one(S["module"])
     return S
 
 
